@@ -7,9 +7,11 @@ the model's prediction (`diverge`), and evaluates the C18 / loop monitors of
 `Client.LoopSpec` on the IMPLEMENTATION's trace (`monitorFail`).
 
 `MqttState` stand-in: `Mini` below is a small executable copy of the packet-id / window /
-acknowledgement bookkeeping of rumqttc's `MqttState` (v4 and v5), used ONLY to predict the wire
-in the correspondence; no theorem depends on it (they hold for every `StateOps`). It is to be
-replaced by `Model/Client/State.lean` of the `cstate` slice when both are merged.
+acknowledgement bookkeeping of rumqttc's `MqttState` (v4 and v5, as repaired: `clean()` returns
+the stored publishes oldest-sent first (v4) / by id (v5), then the releases, then the parked
+publish unnumbered; publishes released from the collision slot are stored), used ONLY to predict
+the wire in the correspondence; no theorem depends on it (they hold for every `StateOps`). The
+full state machine is `Model/Client/State.lean` (cstate slice).
 
 Simultaneity: when two branches of `select!` are ready at the same virtual instant tokio picks
 one at random. The model's `run` takes a priority order over {net, req, timer} as oracle; the
@@ -53,8 +55,15 @@ structure Mini where
 deriving Repr
 
 def Mini.nextPkid (m : Mini) : Mini × Nat :=
-  let n := m.lastPkid + 1
-  if n == m.maxInflight then ({ m with lastPkid := 0 }, n) else ({ m with lastPkid := n }, n)
+  match m.ver with
+  | .v4 =>
+    let n := m.lastPkid + 1
+    if n == m.maxInflight then ({ m with lastPkid := 0 }, n) else ({ m with lastPkid := n }, n)
+  | .v5 =>
+    -- wraps with `>=` (the receive maximum may have been lowered below `last_pkid`)
+    let last := if m.lastPkid ≥ m.maxInflight then 0 else m.lastPkid
+    let n := last + 1
+    if n ≥ m.maxInflight then ({ m with lastPkid := 0 }, n) else ({ m with lastPkid := n }, n)
 
 def insertSorted (x : Nat) : List Nat → List Nat
   | [] => [x]
@@ -68,7 +77,8 @@ def Mini.handleOutgoing (m : Mini) (r : Req) : Res Mini :=
     else
       let (m1, id) := if pkid == 0 then m.nextPkid else (m, pkid)
       if id > m1.size then { st := m1, err := some .unsolicited }
-      else if m1.outPub.any (·.pkid == id) then
+      -- an id is occupied by a stored publish or by a release that awaits its PUBCOMP
+      else if m1.outPub.any (·.pkid == id) || m1.outRel.contains id then
         { st := { m1 with collision := some ⟨q, id, tag⟩ }, events := [.outgoing (.awaitAck id)] }
       else
         { st := { m1 with outPub := m1.outPub ++ [⟨q, id, tag⟩], inflight := m1.inflight + 1 },
@@ -133,26 +143,15 @@ def Mini.handleIncoming (m : Mini) (p : Pkt) : Res Mini :=
     { st := { m with inPub := m.inPub.filter (· != id) },
       events := ev ++ [.outgoing (.pubcomp id)], out := some (.pubcomp id) }
   | .pubcomp id =>
-    match m.ver with
-    | .v4 =>
-      if !(m.outRel.contains id) then { st := m, events := ev, err := some .unsolicited } else
-      let m1 := { m with outRel := m.outRel.filter (· != id), inflight := m.inflight - 1 }
-      match m1.takeCollision id with
-      | some c =>
-        -- the parked publish is written but NOT recorded in the table (as in the Rust text)
-        { st := { m1 with collision := none, collisionPings := 0 },
-          events := ev ++ [.outgoing (.publish id)], out := some (.publish c.qos id false c.tag) }
-      | none => { st := m1, events := ev }
-    | .v5 =>
-      -- v5 looks at the collision first, then at the release table
-      let c := m.takeCollision id
-      let m0 := if c.isSome then { m with collision := none, collisionPings := 0 } else m
-      let evs := match c with
-        | some _ => ev ++ [.outgoing (.publish id)]
-        | none => ev
-      if !(m0.outRel.contains id) then { st := m0, events := evs, err := some .unsolicited } else
-      let m1 := { m0 with outRel := m0.outRel.filter (· != id), inflight := m0.inflight - 1 }
-      { st := m1, events := evs, out := c.map (fun c => .publish c.qos id false c.tag) }
+    -- both versions: unsolicited check first; a publish released from the collision slot is
+    -- stored and counted like one released by PUBACK
+    if !(m.outRel.contains id) then { st := m, events := ev, err := some .unsolicited } else
+    let m1 := { m with outRel := m.outRel.filter (· != id), inflight := m.inflight - 1 }
+    match m1.takeCollision id with
+    | some c =>
+      { st := { m1 with collision := none, outPub := m1.outPub ++ [c], inflight := m1.inflight + 1, collisionPings := 0 },
+        events := ev ++ [.outgoing (.publish id)], out := some (.publish c.qos id false c.tag) }
+    | none => { st := m1, events := ev }
   | .disconnect =>
     match m.ver with
     | .v5 => { st := m, events := ev, err := some (.other "serverdisconnect") }
@@ -170,12 +169,17 @@ def sortPubs (ps : List Pub) : List Pub :=
   ids.filterMap (fun i => ps.find? (·.pkid == i))
 
 def Mini.clean (m : Mini) : Mini × List Req :=
-  let sorted : List Pub := sortPubs m.outPub
+  -- v4: oldest-sent first (`outgoing_order` stamps; `outPub` is kept in the order of storing, which
+  -- is the order of the stamps); v5: by packet id. Then the pending releases, then — last and
+  -- unnumbered — the publish parked on a collision, whose slot is emptied.
   let ordered : List Pub := match m.ver with
-    | .v4 => sorted.filter (fun (p : Pub) => p.pkid > m.lastPuback) ++ sorted.filter (fun (p : Pub) => p.pkid ≤ m.lastPuback)
-    | .v5 => sorted
-  let reqs := ordered.map (fun (p : Pub) => Req.publish p.qos p.pkid p.tag) ++ m.outRel.map Req.pubrel
-  ({ m with outPub := [], outRel := [], inPub := [], inflight := 0, collisionPings := 0 }, reqs)
+    | .v4 => m.outPub
+    | .v5 => sortPubs m.outPub
+  let parked : List Req := match m.collision with
+    | some c => [Req.publish c.qos 0 c.tag]
+    | none => []
+  let reqs := ordered.map (fun (p : Pub) => Req.publish p.qos p.pkid p.tag) ++ m.outRel.map Req.pubrel ++ parked
+  ({ m with outPub := [], outRel := [], inPub := [], inflight := 0, collisionPings := 0, collision := none }, reqs)
 
 def miniOps : StateOps Mini where
   handleOutgoing := Mini.handleOutgoing
@@ -411,7 +415,7 @@ def readyBranches (d : DState) : List Branch :=
 /-- next instant at which something inside the loop becomes ready by itself -/
 def nextWake (d : DState) : Option Nat :=
   let t1 := if Client.Timer.armed d.ls.timer.ver d.ls.timer.keepAlive && d.ls.timer.connected then d.ls.timer.deadline else none
-  let t2 := if d.ls.net.isSome && !d.ls.pending.isEmpty then some (d.throttleFrom + d.thr) else none
+  let t2 := if d.ls.net.isSome && !d.ls.pending.isEmpty && selectEnabled miniOps d.ls then some (d.throttleFrom + d.thr) else none
   match t1, t2 with
   | some a, some b => some (min a b)
   | some a, none => some a
